@@ -372,6 +372,17 @@ func (d *dateTime) Apply(key string, value interface{}, ctx *rdf.ParsingContext)
 								),
 							),
 						),
+						jen.Commentf("time.Parse also takes a one-digit hour, a comma before the fraction and a zone offset of a day or more."),
+						jen.If(
+							jen.Err().Op("==").Nil().Op("&&").Op("!").Qual("regexp", "MustCompile").Call(
+								jen.Lit(`^\d{4}-\d{2}-\d{2}T\d{2}:\d{2}(:\d{2}(\.\d+)?)?(Z|[+-]([01]\d|2[0-3]):[0-5]\d)$`),
+							).Dot("MatchString").Call(jen.Id("s")),
+						).Block(
+							jen.Err().Op("=").Qual("fmt", "Errorf").Call(
+								jen.Lit("%v cannot be interpreted as xsd:datetime"),
+								jen.Id(codegen.This()),
+							),
+						),
 					).Else().Block(
 						jen.Err().Op("=").Qual("fmt", "Errorf").Call(
 							jen.Lit("%v cannot be interpreted as a string for xsd:datetime"),
